@@ -29,12 +29,16 @@ PLAN_TIES = dict(ties=True, cfg=P + "coulomb_atoms/power_bounded_dump.ini", sche
                        "SingleIndependentActivePeriodicDirectionEndOfChainEventHandler.chain_time=0.75"])
 # dumping events that coincide bit for bit with sampling events (both on multiples of 0.5)
 PLAN_TIES_DUMP = dict(PLAN_TIES, end="4", interval="1.0", dumps=None)
+# many cells with three and more atoms: several surplus units per cell at the dump points (their order has to survive too)
+PLAN_PACKED_CELLS = dict(cfg=P + "coulomb_atoms/cell_veto.ini", sched="heap_scheduler", end="1.3", interval="0.3", dumps=None,
+                         sets=["RandomInputHandler.number_of_root_nodes=60", "CoulombNearby.number_event_handlers=60",
+                               "CoulombSurplus.number_event_handlers=60", "CuboidPeriodicCells.cells_per_side=4, 4, 4"])
 PLANS = {
     "quick": [PLAN_TIES, PLAN_TIES_DUMP, dict(cfg=P + "coulomb_atoms/power_bounded_dump.ini", sched="heap_scheduler", end="80", interval="17.3", dumps=[1, 2, 4]),
               dict(cfg=P + "coulomb_atoms/power_bounded_dump.ini", sched="list_scheduler", end="60", interval="19.7", dumps=[1, 3]),
               dict(cfg=P + "dipoles/dipole_factors_inside_first.ini", sched="heap_scheduler", end="25", interval="3.3", dumps=[2, 5]),
               PLAN_8_ATOMS, PLAN_CROWDED_CELLS],
-    "thorough": [dict(PLAN_TIES, dumps=None), PLAN_TIES_DUMP, dict(PLAN_TIES_DUMP, sched="list_scheduler"), dict(PLAN_TIES, dumps=None, sched="list_scheduler"), dict(cfg=P + "coulomb_atoms/power_bounded_dump.ini", sched="heap_scheduler", end="300", interval="19.7", dumps=None),
+    "thorough": [dict(PLAN_PACKED_CELLS, end="3.1"), dict(PLAN_PACKED_CELLS, end="3.1", sched="list_scheduler"), dict(PLAN_TIES, dumps=None), PLAN_TIES_DUMP, dict(PLAN_TIES_DUMP, sched="list_scheduler"), dict(PLAN_TIES, dumps=None, sched="list_scheduler"), dict(cfg=P + "coulomb_atoms/power_bounded_dump.ini", sched="heap_scheduler", end="300", interval="19.7", dumps=None),
                  dict(cfg=P + "coulomb_atoms/power_bounded_dump.ini", sched="list_scheduler", end="300", interval="23.1", dumps=None),
                  dict(cfg=P + "coulomb_atoms/cell_veto.ini", sched="heap_scheduler", end="60", interval="7.7", dumps=None),
                  dict(cfg=P + "coulomb_atoms/cell_veto.ini", sched="list_scheduler", end="40", interval="9.1", dumps=None),
@@ -46,7 +50,70 @@ PLANS = {
 }
 
 
+ROUNDTRIP = [
+    (P + "coulomb_atoms/cell_veto.ini", ["RandomInputHandler.number_of_root_nodes=150", "CoulombNearby.number_event_handlers=150",
+                                         "CoulombSurplus.number_event_handlers=150", "CuboidPeriodicCells.cells_per_side=4, 4, 4"]),
+    (P + "coulomb_atoms/cell_bounded.ini", ["RandomInputHandler.number_of_root_nodes=90", "CoulombNearby.number_event_handlers=90",
+                                            "CoulombSurplus.number_event_handlers=90", "CoulombCellBounding.number_event_handlers=90",
+                                            "SingleProcessMediator.scheduler=list_scheduler"]),
+    (P + "dipoles/cell_veto.ini", ["RandomInputHandler.number_of_root_nodes=24", "CoulombNearby.number_event_handlers=24",
+                                   "CoulombSurplus.number_event_handlers=24", "Repulsive.number_event_handlers=24"]),
+    (P + "water/coulomb_cell_veto_lj_cell_veto.ini", ["RandomInputHandler.number_of_root_nodes=12", "CoulombNearby.number_event_handlers=12",
+                                                      "CoulombSurplus.number_event_handlers=12", "LennardJonesNearby.number_event_handlers=12",
+                                                      "LennardJonesSurplus.number_event_handlers=12"]),
+    (P + "dipoles/dipole_motion.ini", []),
+]
+
+
+def roundtrip(chk):
+    """What a dump persists: the live mediator of a (crowded) run and its dill round trip must generate the same in-states in
+    the same order, list the same occupants / surplus units in the same order and hold the same scheduler entries."""
+    from concurrent.futures import ThreadPoolExecutor
+    from harness.build import run_py
+    with Scratch() as sc:
+        def one(job):
+            i, (cfg, sets), seed = job
+            args = ["-m", "harness.runjf", "--config", cfg, "--seed", str(seed), "--legs", "60", "--roundtrip", "--trace",
+                    os.path.join(sc.sub("rt"), "rt%d_%d.ndjson" % (i, seed)), "--workdir", os.path.join(sc.dir, "rtw%d_%d" % (i, seed))]
+            for s_ in sets:
+                args += ["--set", s_]
+            return cfg, seed, run_py(sc, args, timeout=900)
+        jobs = [(i, c, chk.seed % 1000 + k) for i, c in enumerate(ROUNDTRIP) for k in range(2 if chk.tier == "quick" else 8)]
+        with ThreadPoolExecutor(8) as ex:
+            results = list(ex.map(one, jobs))
+        done = 0
+        for cfg, seed, r in results:
+            try:
+                st = json.loads(r.stdout[r.stdout.index("{"):])
+            except Exception:
+                chk.machinery("round trip run of %s failed: %s" % (cfg, (r.stdout[-300:] + r.stderr[-700:])))
+                continue
+            rt = st.get("roundtrip")
+            if not st.get("ok"):
+                if st.get("exc") == "harness":
+                    chk.machinery("round trip run of %s: harness failure: %s" % (cfg, st.get("msg")))
+                else:
+                    chk.violation("run-exception:%s" % st.get("exc"), "run of %s (many particles) terminated by %s: %s"
+                                  % (cfg, st.get("exc"), st.get("msg")), st)
+                continue
+            if not rt or "error" in rt:
+                chk.machinery("round trip of %s: %s" % (cfg, rt))
+                continue
+            done += 1
+            chk.evaluations += sum(rt["sizes"].values())
+            if not rt["stable"]:
+                chk.machinery("fingerprint of the live mediator of %s is not reproducible within one process" % cfg)
+            elif rt["difference"]:
+                chk.violation("roundtrip:order", "%s seed %d: the mediator loaded from its own dump differs from the live one (what "
+                              "resume.py continues from is not what was dumped): %s" % (cfg, seed, rt["difference"]),
+                              dict(config=cfg, seed=seed, roundtrip=rt))
+        chk.notes["mediator_round_trips_compared"] = done
+        if not done:
+            chk.machinery("vacuous: no mediator round trip compared")
+
+
 def run(chk):
+    roundtrip(chk)
     dump_resume(chk, PLANS[chk.tier], None)
 
 
